@@ -326,6 +326,40 @@ func pricingHarness(kind string, third string, bound int) harness {
 	}}
 }
 
+// isolationHarness (H5): two executions on the same function objects naming different tokens of
+// the same length - one the sender holds with all roles ("S"), one it does not ("T"). Each must
+// observe exactly what it observes when run alone: the first succeeds, the second is refused.
+func isolationHarness(kindA, kindB string, withChange bool, bound int) harness {
+	name := "H5:" + kindA + "(S)||" + kindB + "(T)"
+	if withChange {
+		name += "||change"
+	}
+	return harness{name: name, bound: bound, build: func() ([]func(), func(*vsched.Result) (string, *violation)) {
+		l := bodies.NewLite()
+		var ra, rb bodies.ExecResult
+		bs := []func(){
+			func() { ra = bodies.ExecTok(l, kindA, "S") },
+			func() { rb = bodies.ExecTok(l, kindB, "T") },
+		}
+		if withChange {
+			bs = append(bs, func() { l.Factory.GasScheduleChange(bodies.Schedule(5000)) })
+		}
+		return bs, func(r *vsched.Result) (string, *violation) {
+			if !ra.OK {
+				return "violation", &violation{"isolation", "exec-failed:" + kindA, fmt.Sprintf("%s on the held token S failed while %s on token T ran concurrently: %s", kindA, kindB, ra.Err)}
+			}
+			if rb.OK {
+				return "violation", &violation{"isolation", "foreign-token-accepted:" + kindB, fmt.Sprintf("%s on token T, for which the sender holds nothing and no role, succeeded while %s on token S ran concurrently (alone it is refused)", kindB, kindA)}
+			}
+			c1, c2 := bodies.Charge(kindA, 1000, ra), bodies.Charge(kindA, 5000, ra)
+			if ra.Consumed != c1 && ra.Consumed != c2 {
+				return "violation", &violation{"mixed-charge", "pricing:" + kindA, fmt.Sprintf("%s consumed %d, neither %d nor %d", kindA, ra.Consumed, c1, c2)}
+			}
+			return "isolated:" + rb.Err, nil
+		}
+	}}
+}
+
 // ---------------------------------------------------------------------------------------------
 
 func runReplay(path string) int {
@@ -441,6 +475,12 @@ func allHarnesses(tier checks.Tier) []harness {
 	hs = append(hs, pricingHarness("ESDTNFTTransfer", "epoch", 2), pricingHarness("MultiESDTNFTTransfer", "exec", 2))
 	if thorough {
 		hs = append(hs, pricingHarness("ESDTNFTCreate", "exec", 2), pricingHarness("SaveKeyValue", "epoch", 2))
+	}
+	// H5
+	hs = append(hs, isolationHarness("ESDTNFTCreate", "ESDTNFTCreate", false, 2), isolationHarness("ESDTNFTAddURI", "ESDTNFTCreate", false, 2),
+		isolationHarness("ESDTNFTTransfer", "ESDTNFTTransfer", false, 2), isolationHarness("MultiESDTNFTTransfer", "ESDTNFTAddURI", false, 2))
+	if thorough {
+		hs = append(hs, isolationHarness("ESDTNFTCreate", "ESDTNFTAddURI", true, 2), isolationHarness("ESDTNFTTransfer", "MultiESDTNFTTransfer", false, 3))
 	}
 	return hs
 }
